@@ -482,6 +482,10 @@ func instrumentPackage(p *packages.Package, simPath string, callable *types.Inte
 			continue
 		}
 		file := fileOf(ini.Rhs.Pos())
+		if sa, ok := specOf[ini.Lhs[0]]; ok {
+			// (the rewritten initialiser may have lost its position: `var t0 = time.Now()`)
+			file = fileOf(sa.vs.Names[0].Pos())
+		}
 		if file == nil {
 			die("initializer of %v not found in any file", lhs)
 		}
